@@ -93,6 +93,7 @@ type CertOpts struct {
 	ExtKeyUsage []x509.ExtKeyUsage
 	CDP         []string
 	OCSP        []string
+	DNSNames    []string
 	NoSKI       bool
 	NoAKI       bool
 	NotBefore   time.Time
@@ -143,6 +144,7 @@ func template(o CertOpts) (*x509.Certificate, crypto.Signer) {
 		ExtKeyUsage:           o.ExtKeyUsage,
 		CRLDistributionPoints: o.CDP,
 		OCSPServer:            o.OCSP,
+		DNSNames:              o.DNSNames,
 		SignatureAlgorithm:    o.SigAlg,
 	}
 	if !o.NoSKI {
